@@ -26,6 +26,7 @@ var Rules = []string{
 	"package-level constants and variables, shadowed by locals (Go; testsuite/lang/pkg.mpcl, var.mpcl)",
 	"an untyped integer literal takes the type of its context (assignment target, other operand, parameter, result) (Go constants; README 'constants are untyped')",
 	"composite literals of structs and arrays with constant elements are values like any other (Go; testsuite/lang/composite_lit.mpcl)",
+	"named results are variables initialised to zero and returned by a bare return (Go; testsuite/lang/named_return*.mpcl); len(array) is the declared length (testsuite/lang/len_array.mpcl)",
 	"unary minus is 0 - x in the operand's type; x op= e is x = x op e; x++ / x-- add / subtract one (Go)",
 }
 
@@ -642,6 +643,8 @@ type For struct {
 	Var      string
 	From, To int64
 	Body     []Stmt
+	// ToLen, if set, writes the bound as len(<ToLen>); To must be that array's length
+	ToLen string
 }
 
 func (s For) Exec(e *Env) (bool, []Value) {
@@ -657,7 +660,11 @@ func (s For) Exec(e *Env) (bool, []Value) {
 	return false, nil
 }
 func (s For) Src(in string) string {
-	return fmt.Sprintf("%sfor %s := %d; %s < %d; %s++ {\n%s%s}\n", in, s.Var, s.From, s.Var, s.To, s.Var, srcBlock(in, s.Body), in)
+	bound := fmt.Sprint(s.To)
+	if s.ToLen != "" {
+		bound = "len(" + s.ToLen + ")"
+	}
+	return fmt.Sprintf("%sfor %s := %d; %s < %s; %s++ {\n%s%s}\n", in, s.Var, s.From, s.Var, bound, s.Var, srcBlock(in, s.Body), in)
 }
 
 // Return returns values.
@@ -678,6 +685,9 @@ func (s Return) Src(in string) string {
 	for _, x := range s.X {
 		a = append(a, x.Src())
 	}
+	if len(a) == 0 {
+		return in + "return\n"
+	}
 	return in + "return " + strings.Join(a, ", ") + "\n"
 }
 
@@ -695,6 +705,9 @@ type Func struct {
 	Params  []Param
 	Results []Type
 	Body    []Stmt
+	// ResultNames, if set, names the results: they are variables initialised to zero, and a bare return
+	// (Return with no expressions) returns their current values.
+	ResultNames []string
 }
 
 // Global is a package-level constant or variable.
@@ -734,9 +747,17 @@ func (p *Program) call(f *Func, args []Value, depth int) []Value {
 	for i, pa := range f.Params {
 		e.declare(pa.Name, args[i])
 	}
+	for i, n := range f.ResultNames {
+		e.declare(n, Zero(f.Results[i]))
+	}
 	ret, vals := execBlock(e, f.Body)
 	if !ret {
 		panic("refsem: function " + f.Name + " fell off its end")
+	}
+	if len(vals) == 0 && len(f.ResultNames) > 0 {
+		for _, n := range f.ResultNames {
+			vals = append(vals, e.lookup(n).clone())
+		}
 	}
 	return vals
 }
@@ -777,11 +798,15 @@ func (p *Program) Src() string {
 		for _, pa := range f.Params {
 			ps = append(ps, pa.Name+" "+pa.T.Src())
 		}
-		for _, r := range f.Results {
-			rs = append(rs, r.Src())
+		for i, r := range f.Results {
+			if len(f.ResultNames) > 0 {
+				rs = append(rs, f.ResultNames[i]+" "+r.Src())
+			} else {
+				rs = append(rs, r.Src())
+			}
 		}
 		res := strings.Join(rs, ", ")
-		if len(rs) > 1 {
+		if len(rs) > 1 || len(f.ResultNames) > 0 {
 			res = "(" + res + ")"
 		}
 		fmt.Fprintf(&b, "func %s(%s) %s {\n%s}\n\n", f.Name, strings.Join(ps, ", "), res, srcBlock("", f.Body))
